@@ -54,6 +54,7 @@ _coerce_scheme_options = dict(
     min_rounds=int,
     max_rounds=int,
     default_rounds=int,
+    rounds=int,
     vary_rounds=_coerce_vary_rounds,
     salt_size=int,
     truncate_error=as_bool,
